@@ -4,6 +4,7 @@
 use std::io::{BufRead, BufReader, Write};
 use std::panic::{catch_unwind, AssertUnwindSafe};
 
+mod tup;
 mod util;
 mod val;
 mod wal;
@@ -40,6 +41,7 @@ fn main() {
             "wire" => wire::run(&toks),
             "val" => val::run(&toks),
             "wal" => wal::run(&toks),
+            "tup" => tup::run(&toks),
             _ => panic!("unknown mode"),
         }));
         let s = match r {
